@@ -95,8 +95,7 @@ Theorem C04_api_not_open_silent : ApiGateSpec.api_not_open_silent_stmt.  Proof. 
 Print Assumptions C04_api_not_open_silent.
 Theorem C04_api_xstep_not_open_silent : ApiGateSpec.xstep_not_open_silent_stmt.  Proof. exact ApiGateProofsB.xstep_not_open_silent. Qed.
 Print Assumptions C04_api_xstep_not_open_silent.
-Theorem C04_api_not_open_noclock_refuted : ApiGateSpec.api_not_open_noclock_refuted_stmt.  Proof. exact ApiGateProofsB.api_not_open_noclock_refuted. Qed.
-Print Assumptions C04_api_not_open_noclock_refuted.
+(* C04_api_not_open_noclock_refuted is gone with the repair of SendHeartbeat(bool) in /repo: the call is silent on a node that is not open, with or without the clock hypothesis *)
 Theorem C04_api_settle_delay : ApiGateSpec.api_settle_delay_stmt.  Proof. exact ApiGateProofsB.api_settle_delay. Qed.
 Print Assumptions C04_api_settle_delay.
 
